@@ -13,7 +13,13 @@ import (
 	"example.com/scion-time/net/udp"
 )
 
+// MaxCookieLen is the maximum length of a cookie that still fits, together
+// with a unique identifier and an authenticator, into an NTS-secured NTP
+// packet (see nts.MaxPacketLen).
+const MaxCookieLen = 896
+
 var (
+	errCookieLen   = errors.New("unexpected NTS-KE meta data: cookie too long")
 	errNoCookies   = errors.New("unexpected NTS-KE meta data: no cookies")
 	errUnknownAlgo = errors.New("unexpected NTS-KE meta data: unknown algorithm")
 )
@@ -89,6 +95,11 @@ func (f *Fetcher) exchangeKeys(ctx context.Context) error {
 	if len(f.data.Cookie) == 0 {
 		return errNoCookies
 	}
+	for _, cookie := range f.data.Cookie {
+		if len(cookie) > MaxCookieLen {
+			return errCookieLen
+		}
+	}
 	if f.data.Algo != AES_SIV_CMAC_256 {
 		return errUnknownAlgo
 	}
@@ -113,5 +124,8 @@ func (f *Fetcher) FetchData(ctx context.Context) (Data, error) {
 
 // StoreCookie stores a cookie byte slice and appends it to the cached data.
 func (f *Fetcher) StoreCookie(cookie []byte) {
+	if len(cookie) > MaxCookieLen {
+		return
+	}
 	f.data.Cookie = append(f.data.Cookie, cookie)
 }
